@@ -1,0 +1,35 @@
+//go:build verif
+
+// Machine-checked contracts for package store (comment-only; read by /verif/govc).
+
+package store
+
+// ---- write-through memory cache (properties C01, C13) ---------------------------------------
+
+//@ specfunc mcshape(s *CAStore) bool = s != nil && s.memCache != nil && s.memCache.entries != nil
+
+// verify succeeds only if the reader's content hashes to name (unless verification is switched off).
+//@ func CAStore.verify
+//@   requires s != nil
+//@   ensures verified: result == nil ==> s.config.SkipHashVerification || hashok(rsrc(r), name)
+
+// addToMemoryCache runs holding a reservation of `size` bytes (token from TryReserve). It either
+// converts exactly that reservation into a verified entry or leaves the token untouched.
+//@ func CAStore.addToMemoryCache
+//@   requires mcshape(s) && !s.config.SkipHashVerification
+//@   requires holds_token: s.memCache.held >= size
+//@   modifies s.memCache.held, map s.memCache.entries, s.clk.now, every list.Element.list, every list.List.len, every list.List.hi
+//@   ensures consumed: result == nil ==> s.memCache.held == old(s.memCache.held) - size
+//@   ensures untouched_on_error: result != nil ==> s.memCache.held == old(s.memCache.held)
+
+// Every return leaves no reservation behind: the accounted bytes are the stored entries plus
+// other callers' reservations.
+//@ func CAStore.WriteBlobToCacheWithMetaInfo
+//@   requires mcshape(s) && !s.config.SkipHashVerification && s.memCache.held >= 0
+//@   modifies *
+//@   ensures balanced: s.memCache.held == old(s.memCache.held)
+
+// Queueing an entry for the background drain touches only the drain list (not verified here).
+//@ func CAStore.addItemForDiskSync
+//@   trusted
+//@   modifies every list.Element.list, every list.List.len, every list.List.hi
